@@ -469,8 +469,10 @@ def run_property(prop, tier, seed, jobs=None, only_family=None):
                 with open(path, "w") as fh:
                     json.dump(rec, fh, indent=1)
                 rc, info, outtxt = _replay_subprocess(path)
-            if rc == 1 and label.startswith("exception:") and label not in info.get("failed", []):
-                rc = 0   # the real code does not raise this exception: engine artefact, not a reproduction
+            if rc == 1 and label not in info.get("failed", []):
+                # the real code fails a different obligation (or does not raise this exception): this candidate is not
+                # reproduced; the other failure has its own candidates
+                rc = 0
             if rc == 1:
                 reproduced = (path, info)
                 break
